@@ -515,6 +515,24 @@ func cmdCheck(args []string) int {
 		fmt.Printf("VIOLATION property=%s replay=%s obligation=%s status=%s%s\n", *prop, path, o.Name, o.Status, tail)
 		exit = 1
 	}
+	// a mismatched function whose driver demonstrates a failing input is a violation all the same
+	for _, r := range results {
+		if r.Mismatch == "" || exit == 1 {
+			continue
+		}
+		probe := &Obl{Name: r.Name + "#contract-mismatch: " + r.Mismatch, Kind: "mismatch", Unit: r.Name, Status: "undecided"}
+		if p := eng.pkgs[r.PkgPath]; p != nil && len(p.GoFiles) > 0 {
+			probe.PkgDir = filepath.Dir(p.GoFiles[0])
+		}
+		if !hasReplayDriver(rep, probe) {
+			continue
+		}
+		path := rep.writeReplay(probe)
+		if replayOnRealCode(rep, probe, path) {
+			fmt.Printf("VIOLATION property=%s replay=%s obligation=%s status=undecided (the contract of %s no longer fits; failing input demonstrated on the real code)\n", *prop, path, r.Name+"#contract-mismatch", r.Name)
+			exit = 1
+		}
+	}
 	for _, r := range results {
 		if r.Mismatch != "" {
 			fmt.Printf("NOTE property=%s function %s was restructured: the loop/assert clauses of its contract no longer apply (%s); it was verified without them\n", *prop, r.Name, truncate(r.Mismatch, 200))
